@@ -660,7 +660,16 @@ class SmallSet {
   }
 
   void grow() {
-    _set.insert(std::make_move_iterator(_vec.begin()), std::make_move_iterator(_vec.end()));
+    try {
+      _set.insert(std::make_move_iterator(_vec.begin()), std::make_move_iterator(_vec.end()));
+    } catch (...) {
+      // Some elements may have been moved into the set already: move them back to stay in a consistent small state.
+      // Elements are not ordered in the vector, so they can come back in any order into the moved-from slots.
+      for (miterator vecIt = _vec.begin(); !_set.empty(); ++vecIt) {
+        *vecIt = std::move(_set.extract(_set.begin()).value());
+      }
+      throw;
+    }
     _vec.clear();
   }
 
